@@ -33,6 +33,10 @@ def _run_shard(args):
                 elif line.startswith("O "): o.append(line[2:])
                 elif line.startswith("E "): e_.append(line[2:])
                 elif line.startswith("OPT "): recs.append(line)
+                elif line == "P":
+                    if o or e_:
+                        recs.append("P O=%s E=%s" % (_cat(o), _cat(e_)))
+                    o = []; e_ = []
                 elif line.startswith("T "):
                     recs.append("%s O=%s E=%s" % (line, _cat(o), _cat(e_))); o = []; e_ = []
                 elif line.startswith("END "):
